@@ -20,9 +20,12 @@ import (
 
 // RunOpts selects how the child is started.
 type RunOpts struct {
-	GOARCH  string // "" / "amd64" or "386"
-	Uid     int    // 0 = unchanged, otherwise uid and gid to switch to
-	Strace  bool   // run under strace -f -e trace=prctl,seccomp -e raw=seccomp
+	GOARCH string // "" / "amd64" or "386"
+	Uid    int    // 0 = unchanged, otherwise uid and gid to switch to
+	Strace bool   // run under strace -f -e trace=prctl,seccomp -e raw=seccomp
+	// Inject (with Strace): a strace fault injection, e.g. "seccomp:error=ENOSYS": the system call fails in every thread
+	// of the child without any seccomp filter being involved (what a kernel without the call looks like)
+	Inject  string
 	Timeout time.Duration
 	Env     []string
 }
@@ -127,6 +130,9 @@ func runOnce(job *kjob.Job, o RunOpts) (*RunResult, error) {
 	tracePath := filepath.Join(dir, "strace.log")
 	if o.Strace {
 		args := []string{"-f", "-o", tracePath, "-e", "trace=prctl,seccomp", "-e", "raw=seccomp", "-e", "signal=none"}
+		if o.Inject != "" {
+			args = append(args, "-e", "inject="+o.Inject)
+		}
 		if o.Uid != 0 {
 			args = append(args, "-u", "nobody")
 		}
